@@ -695,15 +695,15 @@ impl Engine for C12 {
                         if let Ok(((_, tr), _)) = &expected[i] {
                             // 1000 shares at 10.00 USD: the Amount cell is $<10000 x rate> to the cent
                             let amount = (Decimal::from(if row.sell { 10 } else { 10000 }) * *tr).round_dp_with_strategy(2, rust_decimal::RoundingStrategy::MidpointAwayFromZero);
-                            let cell = format!("${:.2}", amount);
-                            // (robust against a thousands separator in the rendering)
-                            let flat = out_txt.replace(',', "");
-                            if !out_txt.contains(&cell) && !flat.contains(&cell) {
+                            // the figure itself, whatever the currency symbol, its place or a thousands separator
+                            let cell = format!("{:.2}", amount);
+                            let flat = out_txt.replace([',', '\'', '\u{a0}', '\u{202f}'], "");
+                            if !flat.contains(&cell) {
                                 push(Violation { kind: "console_wrong_amount".into(), signature: "Amount cell of a USD row not computed with the expected rate".into(), detail: format!("today {} published_today {} rows:\n{}row {}: expected an Amount cell {} (10000.00 USD x {}), not found on stdout", today, pt, app_csv(rows), i, cell, tr) }, &mut violations);
                             }
                             // Amt/Share: 10.00 USD x rate
                             let per_share = (Decimal::from(10) * *tr).round_dp_with_strategy(2, rust_decimal::RoundingStrategy::MidpointAwayFromZero);
-                            let cell2 = format!("${:.2}", per_share);
+                            let cell2 = format!("{:.2}", per_share);
                             if !flat.contains(&cell2) {
                                 push(Violation { kind: "console_wrong_amount".into(), signature: "Amt/Share cell of a USD row not computed with the expected rate".into(), detail: format!("today {} published_today {} rows:\n{}row {}: expected an Amt/Share cell {} (10.00 USD x {}), not found on stdout", today, pt, app_csv(rows), i, cell2, tr) }, &mut violations);
                             }
@@ -711,7 +711,7 @@ impl Engine for C12 {
                             if row.commission {
                                 if let Ok((_, (_, cr))) = &expected[i] {
                                     let comm = (*cr).round_dp_with_strategy(2, rust_decimal::RoundingStrategy::MidpointAwayFromZero);
-                                    let cell3 = format!("${:.2}", comm);
+                                    let cell3 = format!("{:.2}", comm);
                                     if !flat.contains(&cell3) {
                                         push(Violation { kind: "console_wrong_amount".into(), signature: "Commission cell not computed with the expected rate".into(), detail: format!("today {} published_today {} rows:\n{}row {}: expected a Commission cell {} (1.00 x {}), not found on stdout", today, pt, app_csv(rows), i, cell3, cr) }, &mut violations);
                                     }
